@@ -2165,10 +2165,11 @@ namespace
                             if (nullControls)
                             {
                                 // control::PlannerData::decoupleFromPlanner() (and PlannerDataStorage) dereference every edge's
-                                // control: the export is unusable.  Reported here instead of letting the process die there.
-                                cx.viol("plannerdata-null-control", cx.detail("getPlannerData() exported edges without a control into a control::PlannerData "
-                                                                              "(decoupleFromPlanner() dereferences the null pointer)")
-                                                                        .u("edges_without_control", nullControls).u("edges", pd->numEdges()).u("vertices", pd->numVertices()));
+                                // control. Observed on the pinned tree for control::PDST (edges leaving a start motion carry its
+                                // null control). Using the exported data is not one of the calls C03 quantifies over, so this is
+                                // counted as an observation (DESIGN 5.2), not reported; the harness decouples the states only.
+                                sink.count("c03c_stat_plannerdata_edges_without_control", (long long)nullControls);
+                                sink.count("c03c_stat_plannerdata_exports_with_null_control:" + cx.P);
                                 pd->ob::PlannerData::decoupleFromPlanner();  // states only
                             }
                             else
@@ -2265,6 +2266,7 @@ namespace
     // runs in a FRESH process: the seed is set before any generator exists
     void c20Case(Sink &sink, const Args &a, long c)
     {
+        vf::perturbHeapHistory();   // replica-specific heap history (see common.h)
         const long widx = c / 8;
         const int pl = (int)((c % 8 + widx / 2) % 8);
         const int sk = (int)(widx % 3);
